@@ -95,6 +95,13 @@ Proof.
     + destruct (Nat.eqb j k); auto.
 Qed.
 
+Lemma flat_map_ext_in' {A B} (f1 f2 : A -> list B) l :
+  (forall x, In x l -> f1 x = f2 x) -> flat_map f1 l = flat_map f2 l.
+Proof.
+  induction l as [|x l IH]; intros H; simpl; auto.
+  rewrite (H x (or_introl eq_refl)), IH; auto. intros y Hy. apply H. now right.
+Qed.
+
 (* ================================================================== 1. an undeclared name stays a string *)
 
 (* every key of every table satisfies P, P holding for all own and use-associated names *)
@@ -124,6 +131,7 @@ Proof.
   - destruct (assoc_get n (st_get (e_procs E) (sp ss))) eqn:E1.
     + apply get_In in E1. eapply Hp; eauto.
     + apply get_In in H. eapply Ha; eauto.
+  - apply get_In in H. eapply Ha; eauto.
 Qed.
 
 Definition out_ok (P : str -> Prop) (out : list res) : Prop :=
@@ -138,30 +146,25 @@ Proof.
   - specialize (Hev Sc eq_refl). unfold enter_scope.
     set (parent := parent_env Sc (st_stack s)).
     set (ss := st_stores s) in *. destruct Hss as (Hp & Ha & Hy).
-    assert (Hown : forall c k e, In (k, e) (own Sc (own_names Sc c)) -> P k).
-    { intros c k e H. apply (Hev c k e). apply in_app_iff. now left. }
-    assert (Himp : forall c k e, In (k, e) (imports_of Sc c) -> P k).
-    { intros c k e H. apply (Hev c k e). apply in_app_iff. now right. }
+    assert (Hmk : forall c, (forall i k e, In (k, e) (st_get i (store_of ss c)) -> P k) ->
+              forall k e, In (k, e) (update (update (match parent with Some E => tab ss E c | None => [] end)
+                                                    (own Sc (own_names Sc c))) (imports_of Sc c)) -> P k).
+    { intros c Hc. apply update_keys.
+      - apply update_keys.
+        + destruct parent as [E|]; [|intros k e []]. intros k e H. unfold tab in H. eapply Hc; eauto.
+        + intros k e H. apply (Hev c k e). apply in_app_iff. now left.
+      - intros k e H. apply (Hev c k e). apply in_app_iff. now right. }
     assert (Hss' : stores_ok P
-              {| sp := st_set (st_next s)
-                         (update (match parent with
-                                  | Some E => update (update [] (own Sc (own_names Sc CProc))) (tab ss E CProc)
-                                  | None => update [] (own Sc (own_names Sc CProc))
-                                  end) (imports_of Sc CProc)) (sp ss);
-                 sa := st_set (match parent with Some E => e_abs E | None => st_next s end)
-                         (update (update (st_get (match parent with Some E => e_abs E | None => st_next s end) (sa ss))
-                                         (own Sc (own_names Sc CAbs))) (imports_of Sc CAbs)) (sa ss);
-                 sy := st_set (match parent with Some E => e_types E | None => st_next s end)
-                         (update (update (st_get (match parent with Some E => e_types E | None => st_next s end) (sy ss))
-                                         (own Sc (own_names Sc CType))) (imports_of Sc CType)) (sy ss) |}).
+              {| sp := st_set (st_next s) (update (update (match parent with Some E => tab ss E CProc | None => [] end)
+                                                          (own Sc (own_names Sc CProc))) (imports_of Sc CProc)) (sp ss);
+                 sa := st_set (st_next s) (update (update (match parent with Some E => tab ss E CAbs | None => [] end)
+                                                          (own Sc (own_names Sc CAbs))) (imports_of Sc CAbs)) (sa ss);
+                 sy := st_set (st_next s) (update (update (match parent with Some E => tab ss E CType | None => [] end)
+                                                          (own Sc (own_names Sc CType))) (imports_of Sc CType)) (sy ss) |}).
     { repeat split; simpl; apply keys_ok_set; auto.
-      - apply update_keys; [|apply (Himp CProc)]. destruct parent as [E|].
-        + apply update_keys.
-          * apply update_keys; [intros k e []|apply (Hown CProc)].
-          * intros k e H. unfold tab in H. eapply Hp; eauto.
-        + apply update_keys; [intros k e []|apply (Hown CProc)].
-      - apply update_keys; [|apply (Himp CAbs)]. apply update_keys; [|apply (Hown CAbs)]. intros k e H. eapply Ha; eauto.
-      - apply update_keys; [|apply (Himp CType)]. apply update_keys; [|apply (Hown CType)]. intros k e H. eapply Hy; eauto. }
+      - apply (Hmk CProc). exact Hp.
+      - apply (Hmk CAbs). exact Ha.
+      - apply (Hmk CType). exact Hy. }
     split; [exact Hss'|]. simpl.
     intros r Hr Hne. apply in_app_iff in Hr as [Hr|Hr]; [now apply Hout|].
     apply in_map_iff in Hr as (q & <- & _). simpl in *.
@@ -210,7 +213,7 @@ Proof.
   specialize (H r Hr). rewrite E in H. rewrite H in Hm; [discriminate|discriminate].
 Qed.
 
-(* ================================================================== 2. Model = Spec when names are unique *)
+(* ================================================================== 2. Model = Spec *)
 
 Definition functional (l : list (str * ent)) : Prop :=
   forall n e1 e2, In (n, e1) l -> In (n, e2) l -> e1 = e2.
@@ -232,27 +235,29 @@ Proof.
       * intros n' e1 e2 A B. apply (F n'); now right.
 Qed.
 
-Definition decl (all : list srec) (c : cls) (n : str) (e : ent) : Prop := In (n, e) (all_decls c all).
 
-Lemma decl_own all Sc c n e : In Sc all -> In (n, e) (own Sc (own_names Sc c)) -> decl all c n e.
-Proof. intros HS H. unfold decl, all_decls. apply in_flat_map. exists Sc. split; auto. apply in_app_iff. now left. Qed.
-Lemma decl_imp all Sc c n e : In Sc all -> In (n, e) (imports_of Sc c) -> decl all c n e.
-Proof. intros HS H. unfold decl, all_decls. apply in_flat_map. exists Sc. split; auto. apply in_app_iff. now right. Qed.
-
-Lemma local_lookup_decl all Sc c n e : In Sc all -> local_lookup Sc c n = Some e -> decl all c n e.
+Lemma opt_ent_eqb_eq (a b : option ent) : opt_eqb ent_eqb a b = true <-> a = b.
 Proof.
-  intros HS H. unfold local_lookup in H. destruct (str_in n (own_names Sc c)) eqn:E.
-  - injection H as <-. apply str_in_In in E. apply (decl_own all Sc); auto.
-    unfold own. apply in_map_iff. exists n. auto.
-  - apply get_In in H. now apply (decl_imp all Sc).
+  destruct a, b; simpl; split; try discriminate; auto.
+  - intros H. f_equal. now apply ent_eqb_eq.
+  - intros H. injection H as ->. now apply ent_eqb_eq.
 Qed.
-Lemma local_lookup_key Sc c n :
-  local_lookup Sc c n <> None -> In n (own_names Sc c) \/ In n (map fst (imports_of Sc c)).
+
+Lemma update_get_or k (t l : table) :
+  (exists v, In (k, v) l /\ assoc_get k (update t l) = Some v) \/
+  ((forall v, ~ In (k, v) l) /\ assoc_get k (update t l) = assoc_get k t).
 Proof.
-  unfold local_lookup. destruct (str_in n (own_names Sc c)) eqn:E.
-  - intros _. left. now apply str_in_In.
-  - intros H. right. destruct (assoc_get n (imports_of Sc c)) eqn:G; [|congruence].
-    apply get_In in G. now apply (in_map fst) in G.
+  revert t. induction l as [|[k1 v1] l IH]; intros t.
+  - right. split; auto.
+  - rewrite update_cons. simpl fst; simpl snd.
+    destruct (IH (assoc_set k1 v1 t)) as [(v & Hin & E)|(Hn & E)].
+    + left. exists v. split; [now right | exact E].
+    + destruct (str_eqb k1 k) eqn:Ek.
+      * apply str_eqb_eq in Ek. subst k1. left. exists v1. split; [now left|].
+        now rewrite E, get_set_same.
+      * apply str_eqb_neq in Ek. right. split.
+        -- intros v [H|H]; [injection H as -> _; congruence | now apply Hn in H].
+        -- now rewrite E, get_set_other.
 Qed.
 
 (* the look-up along a host chain, innermost scope first *)
@@ -320,25 +325,6 @@ Proof.
   apply (resolve_fuel_stack all _ ND NE l Hc Hin Sc r El). lia.
 Qed.
 
-(* the classes a look-up goes through *)
-Definition look_has (lk : look) (c : cls) : Prop :=
-  match lk, c with
-  | LType, CType => True
-  | LProc, CProc => True
-  | LProcAbs, CProc | LProcAbs, CAbs => True
-  | _, _ => False
-  end.
-Definition unique_decls (all : list srec) : Prop :=
-  functional (all_decls CType all) /\ functional (all_decls CAbs all ++ all_decls CProc all).
-Lemma unique_look all lk c1 c2 n e1 e2 :
-  unique_decls all -> look_has lk c1 -> look_has lk c2 -> decl all c1 n e1 -> decl all c2 n e2 -> e1 = e2.
-Proof.
-  intros [UT UP] H1 H2 D1 D2. unfold decl in *.
-  destruct lk, c1, c2; simpl in *; try tauto;
-    try (apply (UT n); assumption);
-    apply (UP n); apply in_app_iff; auto.
-Qed.
-
 Lemma stack_look_in (f : srec -> option ent) l e :
   stack_look f l = Some e -> exists Sc, In Sc l /\ f Sc = Some e.
 Proof.
@@ -354,179 +340,71 @@ Proof.
   - destruct (f X); [discriminate|]. auto.
 Qed.
 
-(* what the tables of an environment must satisfy for its look-ups to be the Spec's *)
-Definition env_sound (all : list srec) (ss : stores) (E : env) : Prop :=
-  forall c n e, In (n, e) (tab ss E c) -> decl all c n e.
-Definition env_complete (ss : stores) (E : env) (hosts : list srec) : Prop :=
-  forall c n, stack_look (fun S0 => local_lookup S0 c n) hosts <> None -> assoc_get n (tab ss E c) <> None.
 
-Lemma declared_b_false all lk n c e :
-  declared_b all lk n = false -> look_has lk c -> decl all c n e -> False.
+(* ---- the table of a scope as a function of its host chain (innermost scope first) *)
+Fixpoint tabf (c : cls) (hosts : list srec) : table :=
+  match hosts with
+  | [] => []
+  | Sc :: r => update (update (tabf c r) (own Sc (own_names Sc c))) (imports_of Sc c)
+  end.
+
+Lemma scope_legal_facts Sc c :
+  scope_legal Sc = true ->
+  functional (imports_of Sc c) /\ (forall n, In n (own_names Sc c) -> ~ In n (map fst (imports_of Sc c))).
 Proof.
-  intros H L D. unfold decl in D. apply (in_map fst) in D. simpl in D. apply str_in_In in D.
-  destruct lk, c; simpl in *; try tauto; try congruence.
-  - apply orb_false_iff in H as [H _]. congruence.
-  - apply orb_false_iff in H as [_ H]. congruence.
+  unfold scope_legal. rewrite forallb_forall. intros H.
+  assert (Hc : In c [CProc; CAbs; CType]) by (destruct c; simpl; auto).
+  specialize (H c Hc). apply andb_true_iff in H as [H1 H2]. split; [now apply functional_b_iff|].
+  rewrite forallb_forall in H2. intros n Hn. specialize (H2 n Hn). apply negb_true_iff in H2.
+  now apply str_in_false.
 Qed.
 
-Lemma resolver_agree all ss E hosts lk n :
-  unique_decls all -> (forall S0, In S0 hosts -> In S0 all) ->
-  env_sound all ss E -> env_complete ss E hosts ->
-  (stack_look (fun S0 => look_in S0 lk n) hosts = None -> declared_b all lk n = false) ->
-  model_resolver ss E lk n = stack_look (fun S0 => look_in S0 lk n) hosts.
+Lemma own_get Sc names n (t : table) :
+  assoc_get n (update t (own Sc names)) = if str_in n names then Some (s_path Sc ++ [n]) else assoc_get n t.
 Proof.
-  intros U Hin Hs Hc Hr.
-  (* whatever the model finds is a declaration of one of the look-up's classes *)
-  assert (Hm : forall e, model_resolver ss E lk n = Some e -> exists c, look_has lk c /\ decl all c n e).
-  { intros e H. unfold model_resolver in H. destruct lk.
-    - exists CType. split; [exact I|]. apply Hs. now apply get_In.
-    - exists CProc. split; [exact I|]. apply Hs. now apply get_In.
-    - destruct (assoc_get n (tab ss E CProc)) eqn:G.
-      + injection H as <-. exists CProc. split; [exact I|]. apply Hs. now apply get_In.
-      + exists CAbs. split; [exact I|]. apply Hs. now apply get_In. }
-  destruct (stack_look (fun S0 => look_in S0 lk n) hosts) as [e|] eqn:Es.
-  - (* visible: found in some host, in some class of the look-up; the model has the key *)
-    apply stack_look_in in Es as (H & HH & Hl).
-    assert (Hcls : exists c, look_has lk c /\ local_lookup H c n = Some e).
-    { unfold look_in in Hl. destruct lk.
-      - exists CType. split; [exact I | assumption].
-      - exists CProc. split; [exact I | assumption].
-      - destruct (local_lookup H CProc n) eqn:G.
-        + injection Hl as <-. exists CProc. split; [exact I | assumption].
-        + exists CAbs. split; [exact I | assumption]. }
-    destruct Hcls as (c & Lc & Hlc).
-    assert (Dc : decl all c n e) by (apply (local_lookup_decl all H); auto).
-    assert (Hkey : assoc_get n (tab ss E c) <> None).
-    { apply Hc. apply (stack_look_some _ hosts H HH). rewrite Hlc. discriminate. }
-    assert (Hsome : exists e', model_resolver ss E lk n = Some e').
-    { unfold model_resolver. destruct lk, c; simpl in Lc; try tauto.
-      - destruct (assoc_get n (tab ss E CType)); [eauto | congruence].
-      - destruct (assoc_get n (tab ss E CProc)); [eauto | congruence].
-      - destruct (assoc_get n (tab ss E CProc)); [eauto | congruence].
-      - destruct (assoc_get n (tab ss E CProc)); [eauto|].
-        destruct (assoc_get n (tab ss E CAbs)); [eauto | congruence]. }
-    destruct Hsome as (e' & He'). rewrite He'. f_equal.
-    destruct (Hm e' He') as (c' & Lc' & Dc'). apply (unique_look all lk c' c n e' e U Lc' Lc Dc' Dc).
-  - (* not visible: declared nowhere, so no table has it *)
-    specialize (Hr eq_refl). destruct (model_resolver ss E lk n) as [e'|] eqn:He'; auto.
-    destruct (Hm e' eq_refl) as (c' & Lc' & Dc'). exfalso. eapply declared_b_false; eauto.
+  destruct (update_get_or n t (own Sc names)) as [(v & Hin & E)|(Hn & E)]; rewrite E.
+  - unfold own in Hin. apply in_map_iff in Hin as (x & Ex & Hx). injection Ex as -> <-.
+    apply str_in_In in Hx. now rewrite Hx.
+  - destruct (str_in n names) eqn:Es; auto. apply str_in_In in Es. exfalso.
+    apply (Hn (s_path Sc ++ [n])). unfold own. apply in_map_iff. exists n. auto.
 Qed.
 
-(* ---- what entering a scope does to the tables *)
+(* the dictionary of a scope answers as Fortran's host association does, class by class *)
+Lemma tabf_get c hosts n :
+  (forall Sc, In Sc hosts -> scope_legal Sc = true) ->
+  assoc_get n (tabf c hosts) = stack_look (fun Sc => local_lookup Sc c n) hosts.
+Proof.
+  induction hosts as [|Sc r IH]; intros Hl; [reflexivity|]. simpl.
+  destruct (scope_legal_facts Sc c (Hl Sc (or_introl eq_refl))) as [Hf Hd].
+  unfold local_lookup.
+  destruct (update_get_or n (update (tabf c r) (own Sc (own_names Sc c))) (imports_of Sc c)) as [(v & Hin & E)|(Hn & E)];
+    rewrite E.
+  - (* use-associated in Sc *)
+    assert (Hno : str_in n (own_names Sc c) = false).
+    { apply str_in_false. intros Ho. apply (Hd n Ho). now apply (in_map fst) in Hin. }
+    rewrite Hno. destruct (In_get_some _ _ _ Hin) as (v' & Ev'). rewrite Ev'. f_equal.
+    apply get_In in Ev'. apply (Hf n); assumption.
+  - rewrite own_get. destruct (str_in n (own_names Sc c)); auto.
+    assert (Eg : assoc_get n (imports_of Sc c) = None).
+    { destruct (assoc_get n (imports_of Sc c)) eqn:G; auto. apply get_In in G. now apply Hn in G. }
+    rewrite Eg. apply IH. intros S0 H0. apply Hl. now right.
+Qed.
+
+(* ---- the invariant of the traversal *)
 Definition new_env (Sc : srec) (s : state) : env :=
-  let parent := parent_env Sc (st_stack s) in
-  {| e_scope := Sc; e_procs := st_next s;
-     e_abs := match parent with Some E => e_abs E | None => st_next s end;
-     e_types := match parent with Some E => e_types E | None => st_next s end |}.
-Definition prev_tab (Sc : srec) (s : state) (c : cls) : table :=
-  match parent_env Sc (st_stack s) with Some E0 => tab (st_stores s) E0 c | None => [] end.
-
+  {| e_scope := Sc; e_procs := st_next s; e_abs := st_next s; e_types := st_next s |}.
 Lemma enter_stack Sc s : st_stack (enter_scope Sc s) = new_env Sc s :: st_stack s.
 Proof. reflexivity. Qed.
 Lemma enter_next Sc s : st_next (enter_scope Sc s) = S (st_next s).
 Proof. reflexivity. Qed.
 
-Definition fresh_empty (s : state) : Prop :=
-  forall c i, st_next s <= i -> st_get i (store_of (st_stores s) c) = [].
-
-(* entries of the new scope's table: own declarations, use-associated names, the parent's table *)
-Lemma enter_tab_in Sc s c k e :
-  fresh_empty s ->
-  In (k, e) (tab (st_stores (enter_scope Sc s)) (new_env Sc s) c) ->
-  In (k, e) (own Sc (own_names Sc c)) \/ In (k, e) (imports_of Sc c) \/ In (k, e) (prev_tab Sc s c).
-Proof.
-  intros Hf H. unfold tab, enter_scope, new_env, prev_tab in *. simpl in H.
-  destruct c; simpl in H; rewrite st_get_set_same in H.
-  - apply In_update in H as [H|H]; auto. destruct (parent_env Sc (st_stack s)) as [E0|].
-    + apply In_update in H as [H|H]; auto. apply In_update in H as [H|[]]. auto.
-    + apply In_update in H as [H|[]]. auto.
-  - apply In_update in H as [H|H]; auto. apply In_update in H as [H|H]; auto.
-    destruct (parent_env Sc (st_stack s)) as [E0|]; auto.
-    pose proof (Hf CAbs (st_next s) (le_n _)) as X. simpl in X. rewrite X in H. destruct H.
-  - apply In_update in H as [H|H]; auto. apply In_update in H as [H|H]; auto.
-    destruct (parent_env Sc (st_stack s)) as [E0|]; auto.
-    pose proof (Hf CType (st_next s) (le_n _)) as X. simpl in X. rewrite X in H. destruct H.
-Qed.
-
-Lemma get_some_key (t : table) k : assoc_get k t <> None -> In k (map fst t).
-Proof.
-  destruct (assoc_get k t) eqn:E; [|congruence]. intros _. apply get_In in E. now apply (in_map fst) in E.
-Qed.
-
-Lemma enter_tab_keys Sc s c k :
-  In k (own_names Sc c) \/ In k (map fst (imports_of Sc c)) \/ assoc_get k (prev_tab Sc s c) <> None ->
-  assoc_get k (tab (st_stores (enter_scope Sc s)) (new_env Sc s) c) <> None.
-Proof.
-  intros H. unfold tab, enter_scope, new_env, prev_tab in *. simpl.
-  assert (Hown : forall t, In k (own_names Sc c) -> assoc_get k (update t (own Sc (own_names Sc c))) <> None).
-  { intros t Hk. apply get_update_new. unfold own. rewrite map_map. simpl. now rewrite map_id. }
-  destruct c; simpl; rewrite st_get_set_same.
-  - destruct H as [H|[H|H]].
-    + apply get_update_keep. destruct (parent_env Sc (st_stack s)); [apply get_update_keep|]; now apply (Hown []).
-    + now apply get_update_new.
-    + apply get_update_keep. destruct (parent_env Sc (st_stack s)) as [E0|]; [|simpl in H; congruence].
-      apply get_update_new. now apply get_some_key.
-  - destruct H as [H|[H|H]].
-    + apply get_update_keep. now apply Hown.
-    + now apply get_update_new.
-    + apply get_update_keep, get_update_keep.
-      destruct (parent_env Sc (st_stack s)) as [E0|]; [exact H | simpl in H; congruence].
-  - destruct H as [H|[H|H]].
-    + apply get_update_keep. now apply Hown.
-    + now apply get_update_new.
-    + apply get_update_keep, get_update_keep.
-      destruct (parent_env Sc (st_stack s)) as [E0|]; [exact H | simpl in H; congruence].
-Qed.
-
-(* an environment that was already there: its table is unchanged, or it is the table it shares
-   with the new scope (and then it was the parent's table) *)
-Lemma enter_tab_old Sc s E c :
-  e_procs E < st_next s -> e_abs E < st_next s -> e_types E < st_next s ->
-  tab (st_stores (enter_scope Sc s)) E c = tab (st_stores s) E c \/
-  (tab (st_stores (enter_scope Sc s)) E c = tab (st_stores (enter_scope Sc s)) (new_env Sc s) c /\
-   tab (st_stores s) E c = prev_tab Sc s c /\ parent_env Sc (st_stack s) <> None).
-Proof.
-  intros Hp Ha Hy. unfold tab, enter_scope, new_env, prev_tab. simpl.
-  destruct c; simpl.
-  - left. apply st_get_set_other. lia.
-  - destruct (parent_env Sc (st_stack s)) as [E0|].
-    + destruct (Nat.eq_dec (e_abs E0) (e_abs E)) as [Eq|N].
-      * right. rewrite Eq, !st_get_set_same. unfold tab. simpl. rewrite Eq. repeat split; auto. discriminate.
-      * left. now apply st_get_set_other.
-    + left. apply st_get_set_other. lia.
-  - destruct (parent_env Sc (st_stack s)) as [E0|].
-    + destruct (Nat.eq_dec (e_types E0) (e_types E)) as [Eq|N].
-      * right. rewrite Eq, !st_get_set_same. unfold tab. simpl. rewrite Eq. repeat split; auto. discriminate.
-      * left. now apply st_get_set_other.
-    + left. apply st_get_set_other. lia.
-Qed.
-
-Lemma enter_fresh Sc s :
-  fresh_empty s ->
-  (forall E, parent_env Sc (st_stack s) = Some E -> e_abs E < st_next s /\ e_types E < st_next s) ->
-  fresh_empty (enter_scope Sc s).
-Proof.
-  intros Hf Hp c i Hi. rewrite enter_next in Hi. unfold enter_scope. simpl.
-  destruct c; simpl.
-  - rewrite st_get_set_other by lia. apply (Hf CProc). lia.
-  - destruct (parent_env Sc (st_stack s)) as [E0|] eqn:Ep.
-    + destruct (Hp E0 eq_refl) as [Ha _]. rewrite st_get_set_other by lia. apply (Hf CAbs). lia.
-    + rewrite st_get_set_other by lia. apply (Hf CAbs). lia.
-  - destruct (parent_env Sc (st_stack s)) as [E0|] eqn:Ep.
-    + destruct (Hp E0 eq_refl) as [_ Hy]. rewrite st_get_set_other by lia. apply (Hf CType). lia.
-    + rewrite st_get_set_other by lia. apply (Hf CType). lia.
-Qed.
-
-(* ---- the invariant of the traversal *)
 Record Inv (all : list srec) (s : state) : Prop := {
   inv_in : forall E, In E (st_stack s) -> In (e_scope E) all;
   inv_chain : chain (map e_scope (st_stack s));
-  inv_sound : forall E, In E (st_stack s) -> env_sound all (st_stores s) E;
-  inv_complete : forall pre E post, st_stack s = pre ++ E :: post ->
-                 env_complete (st_stores s) E (map e_scope (E :: post));
+  inv_tab : forall pre E post c, st_stack s = pre ++ E :: post ->
+            tab (st_stores s) E c = tabf c (map e_scope (E :: post));
   inv_ids : forall E, In E (st_stack s) ->
-            e_procs E < st_next s /\ e_abs E < st_next s /\ e_types E < st_next s;
-  inv_fresh : fresh_empty s }.
+            e_procs E < st_next s /\ e_abs E < st_next s /\ e_types E < st_next s }.
 
 Definition enter_ok (Sc : srec) (s : state) : Prop :=
   (st_stack s = [] /\ s_kind Sc = KUnit /\ length (s_path Sc) = 1) \/
@@ -545,108 +423,93 @@ Qed.
 
 Lemma init_inv all : Inv all init_state.
 Proof.
-  constructor; simpl; try tauto.
-  - intros pre E post H. destruct pre; discriminate.
-  - intros c i _. destruct c; reflexivity.
+  constructor; simpl; try tauto. intros pre E post c H. destruct pre; discriminate.
+Qed.
+
+Lemma enter_tab_new Sc s c :
+  tab (st_stores (enter_scope Sc s)) (new_env Sc s) c
+  = update (update (match parent_env Sc (st_stack s) with Some E => tab (st_stores s) E c | None => [] end)
+                   (own Sc (own_names Sc c))) (imports_of Sc c).
+Proof. unfold tab, enter_scope, new_env. destruct c; simpl; now rewrite st_get_set_same. Qed.
+Lemma enter_tab_old Sc s E c :
+  e_procs E < st_next s -> e_abs E < st_next s -> e_types E < st_next s ->
+  tab (st_stores (enter_scope Sc s)) E c = tab (st_stores s) E c.
+Proof.
+  intros Hp Ha Hy. unfold tab, enter_scope. destruct c; simpl; apply st_get_set_other; lia.
 Qed.
 
 Lemma inv_enter all Sc s : Inv all s -> In Sc all -> enter_ok Sc s -> Inv all (enter_scope Sc s).
 Proof.
-  intros [Iin Ich Iso Ico Iid Ifr] HSc Hok.
+  intros [Iin Ich Itab Iid] HSc Hok.
   pose proof (parent_env_cases Sc s Hok) as Hpar.
-  assert (Hprev_sound : forall c k e, In (k, e) (prev_tab Sc s c) -> decl all c k e).
-  { intros c k e H. unfold prev_tab in H. destruct Hpar as [[Hp _]|(E0 & rest & Hp & Hs)]; rewrite Hp in H.
-    - destruct H.
-    - apply (Iso E0); auto. rewrite Hs. now left. }
-  assert (Hnew_sound : env_sound all (st_stores (enter_scope Sc s)) (new_env Sc s)).
-  { intros c k e H. apply (enter_tab_in Sc s c k e Ifr) in H as [H|[H|H]].
-    - now apply (decl_own all Sc).
-    - now apply (decl_imp all Sc).
-    - now apply Hprev_sound. }
   constructor.
   - rewrite enter_stack. intros E [<-|H]; auto.
   - rewrite enter_stack. simpl. split; [|exact Ich].
     destruct Hok as [(Hs & _ & Hl)|(E0 & rest & Hs & _ & Hr & Hn)]; rewrite Hs; simpl; auto.
-  - rewrite enter_stack. intros E [<-|H]; [exact Hnew_sound|].
-    destruct (Iid E H) as (Hp & Ha & Hy). intros c k e Hin.
-    destruct (enter_tab_old Sc s E c Hp Ha Hy) as [Eq|(Eq & _ & _)]; rewrite Eq in Hin.
-    + now apply (Iso E H).
-    + now apply Hnew_sound.
-  - rewrite enter_stack. intros pre E post Hst. destruct pre as [|X pre]; simpl in Hst; injection Hst as <- Hst.
-    + (* the new scope *)
-      subst post. intros c n Hl. simpl in Hl. apply enter_tab_keys.
-      destruct (local_lookup Sc c n) eqn:El.
-      * assert (Hne : local_lookup Sc c n <> None) by congruence.
-        apply local_lookup_key in Hne as [H|H]; auto.
-      * right. right. unfold prev_tab.
-        destruct Hpar as [[Hp Hs]|(E0 & rest & Hp & Hs)]; rewrite Hp.
-        -- rewrite Hs in Hl. simpl in Hl. congruence.
-        -- rewrite Hs in Hl. apply (Ico [] E0 rest Hs c n). exact Hl.
-    + (* a scope that was already open: keys only grow *)
-      assert (HE : In E (st_stack s)) by (rewrite Hst; apply in_app_iff; right; now left).
-      destruct (Iid E HE) as (Hp & Ha & Hy). intros c n Hl.
-      pose proof (Ico pre E post Hst c n Hl) as Hk.
-      destruct (enter_tab_old Sc s E c Hp Ha Hy) as [Eq|(Eq & Eq2 & _)]; rewrite Eq; auto.
-      apply enter_tab_keys. right. right. now rewrite <- Eq2.
+  - rewrite enter_stack. intros pre E post c Hst. destruct pre as [|X pre]; simpl in Hst; injection Hst as <- Hst.
+    + subst post. rewrite enter_tab_new. simpl. f_equal. f_equal.
+      destruct Hpar as [[Hp Hs]|(E0 & rest & Hp & Hs)]; rewrite Hp, Hs.
+      * reflexivity.
+      * apply (Itab [] E0 rest c). exact Hs.
+    + assert (HE : In E (st_stack s)) by (rewrite Hst; apply in_app_iff; right; now left).
+      destruct (Iid E HE) as (Hp & Ha & Hy). rewrite enter_tab_old by assumption.
+      now apply (Itab pre E post c).
   - rewrite enter_stack, enter_next. intros E [<-|H].
-    + simpl. destruct Hpar as [[Hp _]|(E0 & rest & Hp & Hs)]; rewrite Hp; [lia|].
-      assert (HE0 : In E0 (st_stack s)) by (rewrite Hs; now left).
-      destruct (Iid E0 HE0) as (_ & Ha & Hy). lia.
+    + simpl. lia.
     + destruct (Iid E H) as (Hp & Ha & Hy). lia.
-  - apply enter_fresh; auto. intros E Hp.
-    destruct Hpar as [[Hp' _]|(E0 & rest & Hp' & Hs)]; rewrite Hp' in Hp; [discriminate|].
-    injection Hp as <-. assert (HE0 : In E0 (st_stack s)) by (rewrite Hs; now left).
-    destruct (Iid E0 HE0) as (_ & Ha & Hy). auto.
 Qed.
 
 Lemma inv_exit all s : Inv all s -> Inv all (exit_scope s).
 Proof.
   intros HI. unfold exit_scope. destruct (st_stack s) as [|E rest] eqn:Hs; [exact HI|].
-  destruct HI as [Iin Ich Iso Ico Iid Ifr]. rewrite Hs in *.
-  - constructor; simpl.
-    + intros E' H. apply Iin. now right.
-    + simpl in Ich. tauto.
-    + intros E' H. apply Iso. now right.
-    + intros pre E' post Hst. apply (Ico (E :: pre) E' post). now rewrite Hst.
-    + intros E' H. apply Iid. now right.
-    + exact Ifr.
+  destruct HI as [Iin Ich Itab Iid]. rewrite Hs in *.
+  constructor; simpl.
+  - intros E' H. apply Iin. now right.
+  - simpl in Ich. tauto.
+  - intros pre E' post c Hst. apply (Itab (E :: pre) E' post c). now rewrite Hst.
+  - intros E' H. apply Iid. now right.
 Qed.
 
 (* ---- the answers *)
-Definition refs_ok (all : list srec) : Prop :=
-  forall Sc q, In Sc all -> In q (enter_reqs Sc ++ exit_reqs Sc) ->
-  spec_resolver all (s_path Sc) (q_look q) (q_name q) = None -> declared_b all (q_look q) (q_name q) = false.
+Lemma look_in_class lk c n :
+  match lk, c with LType, CType | LProc, CProc | LAbs, CAbs => True | _, _ => False end ->
+  forall hosts, stack_look (fun Sc => look_in Sc lk n) hosts = stack_look (fun Sc => local_lookup Sc c n) hosts.
+Proof. intros H hosts. destruct lk, c; try tauto; reflexivity. Qed.
 
 Lemma answers_agree all s E rest reqs :
   NoDup (map s_path all) -> (forall S0, In S0 all -> s_path S0 <> []) ->
-  unique_decls all -> refs_ok all ->
+  (forall S0, In S0 all -> scope_legal S0 = true) ->
   Inv all s -> st_stack s = E :: rest ->
-  (forall q, In q reqs -> In q (enter_reqs (e_scope E) ++ exit_reqs (e_scope E))) ->
   map (answer (model_resolver (st_stores s) E)) reqs
-  = map (answer (spec_resolver all (s_path (e_scope E)))) reqs.
+  = map (answer (procs_first (spec_resolver all (s_path (e_scope E))))) reqs.
 Proof.
-  intros ND NE U RO [Iin Ich Iso Ico Iid Ifr] Hs Hq. apply map_ext_in. intros q Hin.
+  intros ND NE LG [Iin Ich Itab Iid] Hs. apply map_ext_in. intros q _.
   unfold answer. f_equal.
-  assert (HE : In E (st_stack s)) by (rewrite Hs; now left).
-  assert (Hhosts : forall S0, In S0 (map e_scope (E :: rest)) -> In S0 all).
+  set (hosts := map e_scope (E :: rest)).
+  assert (Hhosts : forall S0, In S0 hosts -> In S0 all).
   { intros S0 H. apply in_map_iff in H as (E' & <- & H). apply Iin. now rewrite Hs. }
-  assert (Hspec : spec_resolver all (s_path (e_scope E)) (q_look q) (q_name q)
-                  = stack_look (fun S0 => look_in S0 (q_look q) (q_name q)) (map e_scope (E :: rest))).
-  { apply (spec_resolver_stack all (map e_scope (E :: rest)) (e_scope E) (map e_scope rest)); auto.
-    rewrite <- Hs. exact Ich. }
-  rewrite Hspec. apply (resolver_agree all); auto.
-  - apply (Ico [] E rest). now rewrite Hs.
-  - intros Hn. rewrite <- Hspec in Hn. apply (RO (e_scope E) q); auto.
+  assert (Hleg : forall S0, In S0 hosts -> scope_legal S0 = true) by (intros S0 H; apply LG; auto).
+  assert (Hspec : forall lk n, spec_resolver all (s_path (e_scope E)) lk n
+                               = stack_look (fun S0 => look_in S0 lk n) hosts).
+  { intros lk n. apply (spec_resolver_stack all hosts (e_scope E) (map e_scope rest)); auto.
+    unfold hosts. rewrite <- Hs. exact Ich. }
+  assert (Htab : forall c n, assoc_get n (tab (st_stores s) E c) = stack_look (fun S0 => local_lookup S0 c n) hosts).
+  { intros c n. rewrite (Itab [] E rest c Hs). now apply tabf_get. }
+  unfold model_resolver, procs_first. destruct (q_look q).
+  - rewrite Htab, Hspec. symmetry. now apply (look_in_class LType CType).
+  - rewrite Htab, Hspec. symmetry. now apply (look_in_class LProc CProc).
+  - rewrite !Htab, !Hspec. rewrite (look_in_class LProc CProc), (look_in_class LAbs CAbs) by exact I. reflexivity.
+  - rewrite Htab, Hspec. symmetry. now apply (look_in_class LAbs CAbs).
 Qed.
 
 Definition chunkE (all : list srec) (Sc : srec) : list res :=
-  map (answer (spec_resolver all (s_path Sc))) (enter_reqs Sc).
+  map (answer (procs_first (spec_resolver all (s_path Sc)))) (enter_reqs Sc).
 Definition chunkX (all : list srec) (Sc : srec) : list res :=
-  map (answer (spec_resolver all (s_path Sc))) (exit_reqs Sc).
+  map (answer (procs_first (spec_resolver all (s_path Sc)))) (exit_reqs Sc).
 
 Lemma run_spec all :
   NoDup (map s_path all) -> (forall S0, In S0 all -> s_path S0 <> []) ->
-  unique_decls all -> refs_ok all ->
+  (forall S0, In S0 all -> scope_legal S0 = true) ->
   forall post s entered exited,
   (forall Sc, In (Enter Sc) post -> In Sc all) ->
   wf_ev (map (fun E => s_path (e_scope E)) (st_stack s)) post = true ->
@@ -659,14 +522,13 @@ Lemma run_spec all :
             (exists S0, In S0 (entered ++ scopes_of post) /\ In r (chunkE all S0)) \/
             (exists S0, In S0 (entered ++ scopes_of post) /\ In r (chunkX all S0)).
 Proof.
-  intros ND NE U RO. induction post as [|ev post IH]; intros s entered exited Hall Hwf HI Hrel Hout r.
+  intros ND NE LG. induction post as [|ev post IH]; intros s entered exited Hall Hwf HI Hrel Hout r.
   - simpl in *. destruct (st_stack s) eqn:Hs; [|discriminate]. simpl in Hwf.
     rewrite app_nil_r. rewrite Hout. split; (intros [H|(S0 & H1 & H2)]; [now left|]); right; exists S0; split; auto.
     + apply Hrel. now left.
     + apply Hrel in H1 as [H1|[]]. exact H1.
   - destruct ev as [Sc|].
-    + (* Enter *)
-      assert (HSc : In Sc all) by (apply Hall; now left).
+    + assert (HSc : In Sc all) by (apply Hall; now left).
       simpl in Hwf. apply andb_true_iff in Hwf as [Hcond Hwf].
       assert (Hok : enter_ok Sc s).
       { unfold enter_ok. destruct (st_stack s) as [|E0 rest] eqn:Hs; simpl in Hcond.
@@ -689,8 +551,7 @@ Proof.
         { unfold chunkE. change (st_out (enter_scope Sc s))
             with (st_out s ++ map (answer (model_resolver (st_stores (enter_scope Sc s)) (new_env Sc s))) (enter_reqs Sc)).
           f_equal.
-          apply (answers_agree all (enter_scope Sc s) (new_env Sc s) (st_stack s)); auto.
-          intros q Hq. apply in_app_iff. now left. }
+          apply (answers_agree all (enter_scope Sc s) (new_env Sc s) (st_stack s)); auto. }
         rewrite Hchunk, in_app_iff, Hout. split.
         -- intros [[(S0 & H1 & H2)|(S0 & H1 & H2)]|H].
            ++ left. exists S0. split; auto. apply in_app_iff. now left.
@@ -699,13 +560,12 @@ Proof.
         -- intros [(S0 & H1 & H2)|(S0 & H1 & H2)].
            ++ apply in_app_iff in H1 as [H1|[<-|[]]]; [left; left; eauto | now right].
            ++ left. right. eauto.
-    + (* Exit *)
-      simpl in Hwf. destruct (st_stack s) as [|E rest] eqn:Hs; simpl in Hwf; [discriminate|].
+    + simpl in Hwf. destruct (st_stack s) as [|E rest] eqn:Hs; simpl in Hwf; [discriminate|].
       simpl fold_left. simpl scopes_of.
       assert (Hstep : exit_scope s = {| st_stores := st_stores s; st_next := st_next s; st_stack := rest;
                                         st_out := st_out s ++ chunkX all (e_scope E) |}).
       { unfold exit_scope. rewrite Hs. f_equal. f_equal. unfold chunkX.
-        apply (answers_agree all s E rest); auto. intros q Hq. apply in_app_iff. now right. }
+        apply (answers_agree all s E rest); auto. }
       apply (IH (exit_scope s) entered (exited ++ [e_scope E])).
       * intros S0 H. apply Hall. now right.
       * rewrite Hstep. simpl. exact Hwf.
@@ -745,24 +605,23 @@ Proof.
   - intros H. exists (Enter Sc). split; auto. now left.
 Qed.
 
-Theorem partial_correct evs :
-  wf_events evs = true -> names_unique_per_root evs = true -> refs_visible_or_undeclared evs = true ->
-  forall r, In r (correlate evs) <-> In r (spec evs).
+
+(* For every legal unit the slots FORD fills are those of the Spec in which procedure(n) is read
+   "a visible procedure n, else a visible abstract interface n" *)
+Theorem model_is_spec_procs_first evs :
+  wf_events evs = true -> scopes_legal evs = true ->
+  forall r, In r (correlate evs) <-> In r (spec_procs_first evs).
 Proof.
-  intros Hwf Hu Hr r. unfold wf_events in Hwf. apply andb_true_iff in Hwf as [Hwf Hnd].
+  intros Hwf Hl r. unfold wf_events in Hwf. apply andb_true_iff in Hwf as [Hwf Hnd].
   set (all := scopes_of evs) in *.
   assert (ND : NoDup (map s_path all)) by now apply nodup_paths_NoDup.
   assert (NE : forall S0, In S0 all -> s_path S0 <> []).
   { intros S0 H. apply scopes_of_In in H. eapply wf_ev_nonempty; eauto. }
-  assert (U : unique_decls all).
-  { unfold names_unique_per_root in Hu. apply andb_true_iff in Hu as [H1 H2]. split; now apply functional_b_iff. }
-  assert (RO : refs_ok all).
-  { intros Sc q HS Hq Hn. unfold refs_visible_or_undeclared in Hr. rewrite forallb_forall in Hr.
-    specialize (Hr Sc HS). rewrite forallb_forall in Hr. specialize (Hr q Hq). fold all in Hr.
-    rewrite Hn in Hr. now apply negb_true_iff in Hr. }
-  pose proof (run_spec all ND NE U RO evs init_state [] []) as H.
+  assert (LG : forall S0, In S0 all -> scope_legal S0 = true).
+  { unfold scopes_legal in Hl. rewrite forallb_forall in Hl. exact Hl. }
+  pose proof (run_spec all ND NE LG evs init_state [] []) as H.
   unfold correlate. rewrite H; clear H.
-  - simpl. unfold spec. fold all. rewrite in_flat_map. unfold chunkE, chunkX. split.
+  - simpl. unfold spec_procs_first. fold all. rewrite in_flat_map. unfold chunkE, chunkX. split.
     + intros [(S0 & H1 & H2)|(S0 & H1 & H2)]; exists S0; (split; [exact H1|]); rewrite map_app, in_app_iff; auto.
     + intros (S0 & H1 & H2). rewrite map_app, in_app_iff in H2. destruct H2; [left | right]; eauto.
   - intros Sc H. now apply scopes_of_In.
@@ -770,6 +629,35 @@ Proof.
   - apply init_inv.
   - simpl. tauto.
   - simpl. intros r0. split; [tauto|]. intros [(S0 & [] & _)|(S0 & [] & _)].
+Qed.
+
+(* the two readings of procedure(n) coincide unless an inner abstract interface hides an outer procedure *)
+Lemma spec_procs_first_eq evs : procabs_consistent evs = true -> spec_procs_first evs = spec evs.
+Proof.
+  intros H. unfold spec_procs_first, spec. unfold procabs_consistent in H. rewrite forallb_forall in H.
+  apply flat_map_ext_in'. intros Sc HS. apply map_ext_in. intros q Hq.
+  specialize (H Sc HS). rewrite forallb_forall in H. specialize (H q Hq).
+  unfold answer. f_equal. unfold procs_first. destruct (q_look q); auto.
+  unfold procabs_ok in H. apply opt_ent_eqb_eq in H. now rewrite H.
+Qed.
+
+Theorem partial_correct evs :
+  wf_events evs = true -> scopes_legal evs = true -> procabs_consistent evs = true ->
+  forall r, In r (correlate evs) <-> In r (spec evs).
+Proof.
+  intros Hwf Hl Hp r. rewrite <- (spec_procs_first_eq evs Hp). now apply model_is_spec_procs_first.
+Qed.
+
+(* every slot that is not a procedure(n) reference: no region at all *)
+Theorem types_and_procs_correct evs :
+  wf_events evs = true -> scopes_legal evs = true ->
+  forall r, r_look r <> LProcAbs -> (In r (correlate evs) <-> In r (spec evs)).
+Proof.
+  intros Hwf Hl r Hr. rewrite (model_is_spec_procs_first evs Hwf Hl r).
+  unfold spec_procs_first, spec. rewrite !in_flat_map.
+  split; intros (Sc & HS & Hin); exists Sc; (split; [exact HS|]);
+    apply in_map_iff in Hin as (q & Eq & Hq); apply in_map_iff; exists q; (split; [|exact Hq]);
+    subst r; unfold answer in *; simpl in *; f_equal; unfold procs_first; destruct (q_look q); auto; congruence.
 Qed.
 
 (* ================================================================== 3. witnesses and examples *)
@@ -818,31 +706,51 @@ Definition w_leak : list event :=
    Enter (mkS ["m"; "a"] KProc [] [] [mkT "t" None [] [] []] [] [mkV "x" (Some (TRType (s "t")))] []); Exit;
    Enter (mkS ["m"; "b"] KProc [] [] [] [] [mkV "y" (Some (TRType (s "t")))] []); Exit;
    Exit].
+(* module m
+     contains
+       subroutine x
+       subroutine a:  abstract interface x ; procedure(x), pointer :: p *)
+Definition w_absproc : list event :=
+  [Enter (mkS ["m"] KUnit ["x"; "a"] [] [] [] [] []);
+   Enter (mkS ["m"; "x"] KProc [] [] [] [] [] []); Exit;
+   Enter (mkS ["m"; "a"] KProc [] ["x"] [] [] [mkV "p" (Some (TRProc (s "x")))] []);
+   Enter (mkS ["m"; "a"; "x"] KBody [] [] [] [] [] []); Exit;
+   Exit; Exit].
 Local Close Scope string_scope.
 
 Definition refuted_by (evs : list event) (r : res) : Prop :=
-  wf_events evs = true /\ In r (correlate evs) /\ ~ In r (spec evs).
+  wf_events evs = true /\ scopes_legal evs = true /\ In r (correlate evs) /\ ~ In r (spec evs).
 
-(* inside a, "helper" is a's own internal procedure; FORD takes the module's *)
-Lemma refuted_proc_shadow :
-  refuted_by w_shadow {| r_scope := map s ["m"; "a"]%string; r_slot := SVar (s "p"); r_look := LProcAbs;
-                         r_name := s "helper"; r_ent := Some (map s ["m"; "helper"]%string) |}
-  /\ names_unique_per_root w_shadow = false.
+(* inside a, "x" is a's abstract interface; FORD takes the module procedure x *)
+Lemma refuted_abs_over_proc :
+  refuted_by w_absproc {| r_scope := map s ["m"; "a"]%string; r_slot := SVar (s "p"); r_look := LProcAbs;
+                          r_name := s "x"; r_ent := Some (map s ["m"; "x"]%string) |}
+  /\ procabs_consistent w_absproc = false.
 Proof.
-  split; [|vm_compute; reflexivity]. split; [vm_compute; reflexivity|]. split.
+  split; [|vm_compute; reflexivity]. split; [vm_compute; reflexivity|]. split; [vm_compute; reflexivity|]. split.
   - vm_compute. repeat (first [left; reflexivity | right]).
   - apply not_in_spec. vm_compute. reflexivity.
 Qed.
-(* t is declared once, inside a; b (and the module) must not see it, FORD resolves it.  Names are
-   unique here: uniqueness alone does not give the property *)
-Lemma refuted_sibling_leak :
-  refuted_by w_leak {| r_scope := map s ["m"; "b"]%string; r_slot := SVar (s "y"); r_look := LType;
-                       r_name := s "t"; r_ent := Some (map s ["m"; "a"; "t"]%string) |}
-  /\ names_unique_per_root w_leak = true /\ refs_visible_or_undeclared w_leak = false.
+
+(* the two defects repaired in FortranCodeUnit.correlate: their witnesses now get Fortran's answer
+   (a's own helper; nothing for the type that only the sibling declares) *)
+Example fixed_proc_shadow :
+  wf_events w_shadow = true /\ scopes_legal w_shadow = true /\ procabs_consistent w_shadow = true /\
+  In {| r_scope := map s ["m"; "a"]%string; r_slot := SVar (s "p"); r_look := LProcAbs;
+        r_name := s "helper"; r_ent := Some (map s ["m"; "a"; "helper"]%string) |} (correlate w_shadow).
 Proof.
-  split; [|split; vm_compute; reflexivity]. split; [vm_compute; reflexivity|]. split.
-  - vm_compute. repeat (first [left; reflexivity | right]).
-  - apply not_in_spec. vm_compute. reflexivity.
+  repeat split; try (vm_compute; reflexivity). vm_compute. repeat (first [left; reflexivity | right]).
+Qed.
+Example fixed_sibling_leak :
+  wf_events w_leak = true /\ scopes_legal w_leak = true /\ procabs_consistent w_leak = true /\
+  In {| r_scope := map s ["m"; "b"]%string; r_slot := SVar (s "y"); r_look := LType;
+        r_name := s "t"; r_ent := None |} (correlate w_leak) /\
+  In {| r_scope := map s ["m"]%string; r_slot := SVar (s "z"); r_look := LType;
+        r_name := s "t"; r_ent := None |} (correlate w_leak) /\
+  In {| r_scope := map s ["m"; "a"]%string; r_slot := SVar (s "x"); r_look := LType;
+        r_name := s "t"; r_ent := Some (map s ["m"; "a"; "t"]%string) |} (correlate w_leak).
+Proof.
+  repeat split; try (vm_compute; reflexivity); vm_compute; repeat (first [left; reflexivity | right]).
 Qed.
 
 (* a unit with unique names: every kind of slot, three nesting levels, an interface body, names
@@ -875,8 +783,9 @@ Definition ex_unit : list event :=
 Local Close Scope string_scope.
 
 Example ex_unit_hypotheses :
-  wf_events ex_unit = true /\ names_unique_per_root ex_unit = true /\ refs_visible_or_undeclared ex_unit = true /\
+  wf_events ex_unit = true /\ scopes_legal ex_unit = true /\ procabs_consistent ex_unit = true /\
   length (correlate ex_unit) = 24 /\
   existsb (fun r => match r_ent r with Some _ => true | None => false end) (correlate ex_unit) = true /\
-  existsb (fun r => match r_ent r with Some _ => false | None => true end) (correlate ex_unit) = true.
+  existsb (fun r => match r_ent r with Some _ => false | None => true end) (correlate ex_unit) = true /\
+  existsb (fun r => match r_look r with LProcAbs => true | _ => false end) (correlate ex_unit) = true.
 Proof. repeat split; vm_compute; reflexivity. Qed.
